@@ -264,28 +264,20 @@ fn c16_hops_from_path_no_metadata() {
     assert!(PathPolicyHop::hops_from_path(&p).is_err(), "C16.hops-err: empty interface list must be an error");
 }
 
-#[kani::proof]
-#[kani::unwind(7)]
-fn c16_hops_from_path_b4() {
-    let n: usize = kani::any();
-    kani::assume(n >= 1 && n <= 4);
+fn hops_from_path_n<const N: usize>() {
+    // exactly N interfaces (concrete count, symbolic contents); a symbolic-length Vec of the 100+ byte
+    // InterfaceMetadata exhausts memory in CBMC
     let ia: [u64; 4] = kani::any();
     let id: [u16; 4] = kani::any();
-    let mut v: Vec<InterfaceMetadata> = Vec::with_capacity(4);
-    let mut i = 0;
-    while i < 4 {
-        if i < n {
-            v.push(InterfaceMetadata {
-                interface: PathInterface { isd_asn: IsdAsn(ia[i]), id: id[i] },
-                geo_info: None,
-                latency: None,
-                bandwidth: None,
-                link: None,
-            });
-        }
-        i += 1;
-    }
-    let p = path_with(Some(meta(Some(v))));
+    let arr: [InterfaceMetadata; N] = core::array::from_fn(|i| InterfaceMetadata {
+        interface: PathInterface { isd_asn: IsdAsn(ia[i]), id: id[i] },
+        geo_info: None,
+        latency: None,
+        bandwidth: None,
+        link: None,
+    });
+    let n = N;
+    let p = path_with(Some(meta(Some(Vec::from(arr)))));
     let r = PathPolicyHop::hops_from_path(&p);
     match &r {
         Ok(h) => {
@@ -307,10 +299,34 @@ fn c16_hops_from_path_b4() {
             assert!(n % 2 == 1 || (n == 4 && ia[1] != ia[2]), "C16.hops-complete: a well-formed interface list was rejected");
         }
     }
-    kani::cover!(r.is_ok() && n == 2, "two interfaces");
-    kani::cover!(r.is_ok() && n == 4, "four interfaces");
-    kani::cover!(r.is_err() && n == 4, "four interfaces, AS mismatch");
-    kani::cover!(r.is_err() && n == 3, "odd number");
+    kani::cover!(r.is_ok() || n % 2 == 1, "accepted");
+    kani::cover!(r.is_err() || n == 2, "rejected");
+    core::mem::forget(p);
+    core::mem::forget(r);
+}
+
+#[kani::proof]
+#[kani::unwind(7)]
+fn c16_hops_from_path_i1() {
+    hops_from_path_n::<1>();
+}
+
+#[kani::proof]
+#[kani::unwind(7)]
+fn c16_hops_from_path_i2() {
+    hops_from_path_n::<2>();
+}
+
+#[kani::proof]
+#[kani::unwind(7)]
+fn c16_hops_from_path_i3() {
+    hops_from_path_n::<3>();
+}
+
+#[kani::proof]
+#[kani::unwind(7)]
+fn c16_hops_from_path_i4() {
+    hops_from_path_n::<4>();
 }
 
 // ------------------------------------------------------------------------------------------------
